@@ -835,10 +835,16 @@ where
             let cpk = CL03CommitmentPublicKey { N: ks.cpk_issuer.N.clone(), h: ks.cpk_issuer.h.clone(), g_bases: ks.cpk_issuer.g_bases[..n].to_vec() };
             // the signature proof with the hidden positions given in descending order and with a position named twice
             // (the responses must be masked whatever the shape of the list)
-            if n >= 2 {
+            // ... and with nothing hidden at all (every attribute disclosed): e and v still have to be masked
+            {
                 let bases_n2 = Bases(ks.bases.0[..n].to_vec());
                 let cpk2 = CL03CommitmentPublicKey { N: ks.cpk_issuer.N.clone(), h: ks.cpk_issuer.h.clone(), g_bases: ks.cpk_issuer.g_bases[..n].to_vec() };
-                for ul in [vec![n - 1, 0], vec![0, n - 1, n - 1]] {
+                let mut uls: Vec<Vec<usize>> = vec![vec![]];
+                if n >= 2 {
+                    uls.push(vec![n - 1, 0]);
+                    uls.push(vec![0, n - 1, n - 1]);
+                }
+                for ul in uls {
                     let pr = guard(|| PoKSignature::<CL03<C>>::proof_gen(sig.cl03Signature(), &cpk2, &ks.pk, &bases_n2, &msgs, &ul));
                     let Ok(proof) = pr else { continue };
                     let pj = serde_json::to_value(&proof).unwrap();
